@@ -67,8 +67,10 @@ impl Prop for C14 {
             if let Line::Label(s) = l {
                 if !labels.contains_key(s) && ch.chance(2, 3) {
                     n += 1;
-                    let new = match ch.below(4) {
+                    let new = match ch.below(6) {
                         0 => format!("L{n}"),
+                        4 => format!("__{s}"),
+                        5 => format!("__x{n}__"),
                         1 => format!("_{}_{n}", s.to_uppercase()),
                         2 => format!("z{n}_x"),
                         _ => format!("{}{}", "q".repeat(1 + n % 3), n * 7),
